@@ -128,21 +128,59 @@ void condition_variable::notify_one() noexcept {
 }
 
 // chaos scheduling for the replay of schedule-dependent counterexamples: with $VP_CHAOS=<seed> every mutex release is
-// followed, pseudo-randomly, by a short sleep, which hands the processor to the other session threads at that point
+// followed, pseudo-randomly, by a short sleep, which hands the processor to the other session threads at that point.
+// Targeted replay: $VP_PAUSE=<thread>:<kind>:<count>:<ms> pauses thread number <thread> (0 = main, others in creation
+// order, as in llsym) for <ms> milliseconds right after its <count>-th explicit mutex unlock (kind U), right after its
+// <count>-th mutex lock call returned (kind L, i.e. inside the critical section) or after it created its <count>-th thread
+// (kind S) - the preemption point of the symbolic schedule.
 #include <dlfcn.h>
 #include <unistd.h>
 static unsigned g_chaos = 0; static int g_chaos_init = 0;
+static int g_pause_init = 0, g_pause_tid = -1, g_pause_cnt = -1, g_pause_ms = 0; static char g_pause_kind = 0;
+static __thread int t_ord = 0, t_cntU = 0, t_cntL = 0, t_cntS = 0;
+static int g_nthreads = 0;
+static void pause_check(char kind, int cnt) {
+    if (!g_pause_init) {
+        const char * p = getenv("VP_PAUSE");
+        if (p) { int a = -1, c = -1, ms = 0; char k = 0; if (sscanf(p, "%d:%c:%d:%d", &a, &k, &c, &ms) == 4) { g_pause_tid = a; g_pause_kind = k; g_pause_cnt = c; g_pause_ms = ms; } }
+        g_pause_init = 1;
+    }
+    if (g_pause_tid == t_ord && g_pause_kind == kind && g_pause_cnt == cnt) usleep(static_cast<useconds_t>(g_pause_ms) * 1000);
+}
 extern "C" int pthread_mutex_unlock(pthread_mutex_t * m) {
     typedef int (*fn_t)(pthread_mutex_t *);
     static fn_t real = nullptr;
     if (!real) real = reinterpret_cast<fn_t>(dlsym(RTLD_NEXT, "pthread_mutex_unlock"));
     int r = real(m);
+    if (m == &g_nmx) return r;
     if (!g_chaos_init) { const char * p = getenv("VP_CHAOS"); g_chaos = p ? static_cast<unsigned>(strtoul(p, nullptr, 0)) : 0; g_chaos_init = 1; }
     if (g_chaos) {
         unsigned x = __atomic_add_fetch(&g_chaos, 0x9E3779B9u, __ATOMIC_RELAXED);
         x ^= x >> 15; x *= 0x2C1B3C6Du; x ^= x >> 12;
         if ((x & 3) == 0) usleep(300);
     }
+    pause_check('U', ++t_cntU);
+    return r;
+}
+extern "C" int pthread_mutex_lock(pthread_mutex_t * m) {
+    typedef int (*fn_t)(pthread_mutex_t *);
+    static fn_t real = nullptr;
+    if (!real) real = reinterpret_cast<fn_t>(dlsym(RTLD_NEXT, "pthread_mutex_lock"));
+    int r = real(m);
+    if (m != &g_nmx) pause_check('L', ++t_cntL);
+    return r;
+}
+struct vp_start { void * (*fn)(void *); void * arg; int ord; };
+static void * vp_tramp(void * p) { vp_start s = *static_cast<vp_start *>(p); free(p); t_ord = s.ord; return s.fn(s.arg); }
+extern "C" int __interceptor_pthread_create(pthread_t *, const pthread_attr_t *, void * (*)(void *), void *) __attribute__((weak));
+extern "C" int pthread_create(pthread_t * t, const pthread_attr_t * a, void * (*fn)(void *), void * arg) {
+    typedef int (*fn_t)(pthread_t *, const pthread_attr_t *, void * (*)(void *), void *);
+    static fn_t real = nullptr;
+    if (!real) real = __interceptor_pthread_create ? __interceptor_pthread_create : reinterpret_cast<fn_t>(dlsym(RTLD_NEXT, "pthread_create"));
+    vp_start * s = static_cast<vp_start *>(malloc(sizeof(vp_start)));
+    s->fn = fn; s->arg = arg; s->ord = __atomic_add_fetch(&g_nthreads, 1, __ATOMIC_RELAXED);
+    int r = real(t, a, vp_tramp, s);
+    pause_check('S', ++t_cntS);
     return r;
 }
 
